@@ -113,3 +113,40 @@ package schema
 //@   requires hasRule(n, constraint.OptionalConstraintType) ==> typeis(consOf(n).data[constraint.OptionalConstraintType], *constraint.Optional)
 //@   nopanic
 //@   ensures result == (hasRule(n, constraint.OptionalConstraintType) && boolOf(consOf(n).data[constraint.OptionalConstraintType]))
+
+// ---- the type table (C09: a missing type is reported by name) ----
+
+//@ func (Schema).MustType(name)
+//@   props C09 C03
+//@   maypanic
+//@   ensures panics <==> !dom(s.types, name)
+//@   ensures panics ==> errWF(pv) && errCodeOf(pv) == errors.ErrTypeNotFound && unbox(pv, errors.Errorf).args[0] == box(name)
+//@   ensures normal ==> result == s.types[name].schema
+
+//@ func (Schema).Type(name)
+//@   props C09 C03
+//@   nopanic
+//@   ensures (result1 == nil) <==> dom(s.types, name)
+//@   ensures result1 == nil ==> result0 == s.types[name].schema
+//@   ensures result1 != nil ==> result0 == nil && errWF(result1) && errCodeOf(result1) == errors.ErrTypeNotFound
+
+//@ func (Schema).RootNode()
+//@   props C09
+//@   nopanic
+//@   ensures result == s.rootNode
+
+//@ func (Schema).TypesList()
+//@   props C09
+//@   nopanic
+//@   ensures result == s.types
+
+// C09/C11: a type name is registered once; a duplicate is an error, never an overwrite
+//@ func (*Schema).addType(name, schema, rootFile, begin)
+//@   props C09 C11
+//@   requires s != nil && s.types != nil
+//@   maypanic
+//@   modifies s.types[*]
+//@   ensures panics <==> old(dom(s.types, name))
+//@   ensures panics ==> errWF(pv) && errCodeOf(pv) == errors.ErrDuplicationOfNameOfTypes
+//@   ensures normal ==> dom(s.types, name) && s.types[name].schema == schema && s.types[name].rootFile == rootFile && s.types[name].begin == begin
+//@   ensures normal ==> (forall k string :: k != name ==> dom(s.types, k) == old(dom(s.types, k)) && s.types[k] == old(s.types[k]))
